@@ -12,6 +12,7 @@ sequences is not yet proved.
 import FsVerif.Proofs.Machine
 import FsVerif.Proofs.SourceSink
 import FsVerif.Props.C04
+import FsVerif.Props.C09
 namespace FsVerif.Props.C10
 open FsVerif
 
@@ -52,5 +53,14 @@ theorem machine_round_leaves_nothing (s : MacState) (t : Nat) (a : Ans) (toks : 
 theorem buffer_grants_at_once {s : BufStore} (h : BufStore.ReachD s) :
     (s.putQ ≠ [] → s.admits = false) ∧ (s.getQ ≠ [] → s.ready.length = s.getRes.length) :=
   ⟨C04.buf_put_side h, C04.buf_get_side h⟩
+
+/-! ### non-vacuity of `machine_pulls_at_once` on a RECORDED run (Props/C09.demoBlocking): after its first three activations the
+real machine waits on `any_of` over token 0; in the fourth its token is granted, it gets item 1, draws delay 1, spawns worker 1
+and requests the next slot — the premises of the theorem hold there and its conclusion is what the recording shows -/
+
+example : let s := MacState.runActs (MacState.init { wc := 1, blocking := true }) (C09.demoBlocking.take 3)
+    s.bpc = .inAny [0] ∧ firstTrig [0] [0] = some 0 ∧
+    ((s.step 0 2 { trig := [0], draws := [1], items := [{ id := 1, created := 2 }] }).2 =
+       [.get 0 0 1, .draw 1, .spawn 1, .awaitReq]) := by decide +kernel
 
 end FsVerif.Props.C10
